@@ -3,7 +3,7 @@ C13 (exit status / stream discipline), C14 (source-format resolution), C15 (flus
 import re
 
 from engine import rule, AnchorLost
-from model import Super, PathSens, fn_of, trace, strace, is_place, site, const_value, carriers, switches_on_carriers, uses_of_local
+from model import enum_edge, Super, PathSens, fn_of, trace, strace, is_place, site, const_value, carriers, switches_on_carriers, uses_of_local
 import cliview
 import common
 import tables
@@ -607,21 +607,37 @@ def r14_1(ctx):
     det_fn = common.detect_function(ctx.facts)
     lib = ctx.lib
     nn = 0
+
+    def none_guarded(b, bb, depth=0):
+        """The block is reached only through the None edge of an Option<Format> parameter of b, or b is a
+        helper all of whose callers call it only under such a guard."""
+        for sb in b.reach():
+            tt = b.blocks[sb]["term"]
+            if tt["k"] != "switch":
+                continue
+            for s in b.blocks[sb]["stmts"]:
+                if s["k"] == "assign" and s["rv"]["k"] == "discr" and "Option<Format>" in s["rv"]["p"]["ty"]:
+                    root = trace(b, {"k": "copy", "p": {"l": s["rv"]["p"]["l"], "pr": []}})
+                    from_param = 1 <= s["rv"]["p"]["l"] <= b.nargs or bool(root.origin and root.origin[0] == "arg")
+                    e = enum_edge(b, sb, 0)
+                    if from_param and e and b.edge_dominates(e[0], e[1], e[2], bb):
+                        return True
+        if depth >= 3:
+            return False
+        callers = []
+        for cb in lib.bodies:
+            for cbb, ct in cb.calls():
+                cf = fn_of(ct) or {}
+                if (cf.get("resolved") or cf.get("def")) == b.id:
+                    callers.append((cb, cbb))
+        return bool(callers) and all(none_guarded(cb, cbb, depth + 1) for cb, cbb in callers)
+
     for b in lib.bodies:
         for bb, t in b.calls():
             f = fn_of(t) or {}
             if (f.get("resolved") or f.get("def")) == det_fn.id:
                 nn += 1
-                ok = False
-                for sb in b.reach():
-                    tt = b.blocks[sb]["term"]
-                    if tt["k"] != "switch":
-                        continue
-                    for s in b.blocks[sb]["stmts"]:
-                        if s["k"] == "assign" and s["rv"]["k"] == "discr" and "Option<Format>" in s["rv"]["p"]["ty"] and 1 <= s["rv"]["p"]["l"] <= b.nargs:
-                            none_t = [x for vv, x in tt["targets"] if vv == 0]
-                            if none_t and b.edge_dominates(sb, 0, none_t[0], bb):
-                                ok = True
+                ok = none_guarded(b, bb)
                 ctx.ob(f"detect-only-on-none:{b.name}", ok, site(b, bb), "detection is reached only through the None edge of the `from` argument" if ok else "detection can run although a source format was given")
     ctx.ob("detect-call-sites", nn >= 1, site(det_fn), f"{nn} call site(s) of the detection driver")
 
